@@ -82,15 +82,18 @@ def m_variants(tier):
 
 def m_cases(tier):
     """quick: 1 ceilometer x 3 stamps over the full menu + 2 ceilometers x 2 stamps over a 6-entry
-    sub-menu; thorough: 1x4 and 2x2 over the full menu."""
+    sub-menu and over a 5-entry one; thorough: 1x4 and 2x2 over the full menu."""
     full = list(range(len(M_MENU)))
-    shapes = [(1, 3, full), (2, 2, [0, 1, 2, 3, 6, 8])] if tier == 'quick' else [(1, 4, full), (2, 2, full)]
+    # (second quick 2x2 sub-menu: one ceilometer's first hit above MSA+buffer while the other, at the SAME stamp, has a second hit below it)
+    shapes = [(1, 3, full), (2, 2, [0, 1, 2, 3, 6, 8]), (2, 2, [1, 2, 5, 7, 8])] if tier == 'quick' else [(1, 4, full), (2, 2, full)]
     cases = []
     var = m_variants(tier)
+    seen = set()
     for (C, T, menu_idx) in shapes:
         for cells in itertools.product(menu_idx, repeat=C * T):
-            if all(M_MENU[c] is None for c in cells):
+            if all(M_MENU[c] is None for c in cells) or (C, T, cells) in seen:
                 continue
+            seen.add((C, T, cells))
             # canonical representative under swapping the two ceilometers (names are labels only: C16)
             if C == 2 and cells[T:] < cells[:T]:
                 continue
@@ -127,6 +130,23 @@ def w_cases(tier):
             for msa in (9990.0, 10000.0, 10010.0, 10100.0, 10150.0, 10190.0, 10200.0, 10210.0):
                 variants.append({'MSA': msa, 'MSA_HIT_BUFFER': 1500.0, 'BASE_LVL_LOOKBACK_PERC': lb, 'BASE_LVL_HEIGHT_PERC': perc, 'MAX_HITS_OKTA0': 3})
         cases.append({'fam': 'W', 'name': 'msa-vs-' + pat, 'scene': deck, 'variants': variants})
+    # two (three) reportable layers whose bases share ONE height code (needs a minimum separation below the coding resolution)
+    for (h1, h2, h3) in ((10100., 10900., None), (11050., 11950., None), (10010., 10400., 10900.), (1210., 1290., None)):
+        for (n1, n2, n3) in ((6, 42, 50), (20, 42, 50), (42, 55, 60), (6, 20, 42), (42, 6, 42)):
+            decks = [{'h': h1, 'n': n1, 'where': 'first'}, {'h': h2, 'n': n2, 'where': 'last'}]
+            if h3:
+                decks.append({'h': h3, 'n': n3})
+            seps = {'MIN_SEP_VALS': [50, 300], 'MIN_SEP_LIMS': [10000]}
+            cases.append({'fam': 'W', 'name': 'samebin:%g:%g:%s:%d:%d' % (h1, h2, h3, n1, n2), 'scene': {'gen': 'decks', 'T': 60, 'decks': decks},
+                          'variants': [seps, {**seps, 'MSA': 15000.0}, {**seps, 'MSA': h2, 'MSA_HIT_BUFFER': 0.0}, {}]})
+    # groups that inherit the ids of the slices but hold other hits (thick deck, pause, thin deck in its upper part): the three levels
+    # carry different okta classes at the same table positions
+    import itertools
+    grid = (itertools.product((36, 40), (13,), (8, 11, 14), (1250., 1270., 1300.), (11, 7)) if tier == 'quick' else
+            itertools.product((30, 36, 40), (10, 13, 16), (8, 11, 14), (1250., 1270., 1300.), (11, 7)))
+    for args in grid:
+        cases.append({'fam': 'W', 'name': 'regroup:' + ':'.join('%g' % x for x in args), 'scene': {'gen': 'regroup', 'args': list(args)},
+                      'variants': [{}, {'MSA': 1250.0, 'MSA_HIT_BUFFER': 500.0}]})
     return cases
 
 
